@@ -10,14 +10,15 @@ namespace CV.Range
     `seek` is a function of its argument) that seeks to the snapshot decodes exactly `post` and
     is then possibly exhausted.  `post = []` is "seeking to the final position". -/
 theorem C07_range_seek_resumes {Sym : Type} {c : Cfg} (hc : RValid c)
-    (pre' post : List (MStep Sym)) (hv : ∀ x ∈ pre' ++ post, x.Valid c) :
-    ∃ ei e ws, encodeMsg c (Encoder.empty c) pre' = .ok ei ∧
+    (pre' post : List (MStep Sym)) (hn : MsgFits c (pre' ++ post).length)
+    (hv : ∀ x ∈ pre' ++ post, x.Valid c) :
+    ∃ ei e ws snap, encodeMsg c (Encoder.empty c) pre' = .ok ei ∧ ei.pos = .ok snap ∧
       encodeMsg c ei post = .ok e ∧ intoCompressed c e = .ok ws ∧
       ∀ d : Decoder, d.data = ws →
-        ∃ d' d'', d.seek c ei.pos.1 ei.pos.2.1 ei.pos.2.2 = .ok d' ∧
+        ∃ d' d'', d.seek c snap.1 snap.2.1 snap.2.2 = .ok d' ∧
           decodeMsg c d' post = .ok (post.map (·.sym), d'') ∧
           d''.maybeExhausted c = .ok true :=
-  seek_resumes hc pre' post hv
+  seek_resumes hc pre' post hn hv
 
 /-- positions beyond the data are rejected (and, the function being pure, nothing changes) -/
 theorem C07_range_seek_beyond_rejected {c : Cfg} {d : Decoder} {pos lower range : Nat}
@@ -37,7 +38,8 @@ theorem C07_range_seek_eq_sequential {c : Cfg} (hc : RValid c) {ws : List Nat}
 example : ∀ x ∈ exMsg.take 2 ++ exMsg.drop 2, x.Valid exCfg := by
   rw [List.take_append_drop]; exact exMsg_valid
 example : encodeMsg exCfg (Encoder.empty exCfg) (exMsg.take 2) = .ok exInverted := ex_prefix
-example : exInverted.pos = (1, 58624, 25600) := by decide
+example : exInverted.pos = .ok (1, 58624, 25600) := by decide
+example : MsgFits exCfg (exMsg.take 2 ++ exMsg.drop 2).length := by decide
 
 end CV.Range
 
